@@ -4,6 +4,7 @@ import (
 	"encoding/base64"
 	"flag"
 	"fmt"
+	bm "github.com/microcosm-cc/bluemonday"
 	"math/rand"
 	"os"
 	"time"
@@ -59,6 +60,7 @@ func cmdRecord(args []string) int {
 	nontrivial := map[string]bool{}
 	index := []CallIndex{}
 	for s := 0; s < *sessions; s++ {
+		var permissive *bm.Policy
 		recipe := GenRecipe(rng, GenOpts{NoUnsafe: *noUnsafe, NoStyles: *noStyles})
 		if fl := splitProps(*fixed); len(fl) > 0 {
 			// a decoy first: some other policy derived from a shipped constructor is built, extended and used
@@ -72,6 +74,16 @@ func cmdRecord(args []string) int {
 				decoy[i].norm()
 			}
 			BuildReal(decoy).Sanitize(`<p style="color: red" onclick="x">d<script>1</script></p>`)
+			// and a permissive policy that sees every input of the session just before the policy under test does: whatever
+			// the library remembers across policies (a cache keyed by value, say) is primed with the permissive verdict
+			perm := Recipe{{M: "UGCPolicy"}, {M: "AllowURLSchemesMatching", Pat: "^.*$"}, {M: "AllowRelativeURLs", B: true}, {M: "AllowDataURIImages"},
+				{M: "AllowAttrs", Attrs: []string{"href", "src", "cite", "style", "onclick", "id", "class", "rel", "target"}, Scope: "glob"},
+				{M: "AllowElements", Names: []string{"iframe", "form", "input", "button", "textarea", "meta", "base", "svg", "math"}},
+				{M: "AllowStyles", Props: []string{"color", "background", "width"}, Scope: "glob"}, {M: "AllowComments"}}
+			for i := range perm {
+				perm[i].norm()
+			}
+			permissive = BuildReal(perm)
 			m := map[string]string{"ugc": "UGCPolicy", "strict": "StrictPolicy", "new": "NewPolicy"}[fl[s%len(fl)]]
 			c := Call{M: m}
 			c.norm()
@@ -84,6 +96,9 @@ func cmdRecord(args []string) int {
 		for c := 0; c < *calls; c++ {
 			_, b := GenDoc(rng, sess.Model, kindList[rng.Intn(len(kindList))])
 			first := tw.Lines + 1
+			if permissive != nil {
+				permissive.SanitizeBytes(append([]byte{}, b...))
+			}
 			t0 := time.Now()
 			cr := tw.Sanitize(sess, b)
 			dur := time.Since(t0)
